@@ -13,6 +13,7 @@ pub fn dispatch(f: &[String]) -> String
         "fmt" => op_fmt(f),
         "ovl" => op_ovl(f),
         "lc" => op_lc(f),
+        "nav" => op_nav(f),
         "ofmt" => op_ofmt(f),
         _ => format!("{{\"unknown_op\":{}}}", json::string(&f[0])),
     }
@@ -439,4 +440,18 @@ fn op_lc(f: &[String]) -> String
     let ex = std::panic::catch_unwind(std::panic::AssertUnwindSafe(|| counter.get_excerpt(a, b).to_string()));
     let exs = match ex { Ok(s) => if s.is_empty() { "-".to_string() } else { json::hex(s.as_bytes()) }, Err(_) => "panic".to_string() };
     format!("{{\"lc\":\"{} {} {} {} {} {}\"}}", l, c, a, b, counter.get_line_count(), exs)
+}
+
+
+/// nav <current_hex> <relative_hex> : util::filename_navigate
+fn op_nav(f: &[String]) -> String
+{
+    let cur = json::unhex_str(&f[1]);
+    let rel = json::unhex_str(&f[2]);
+    let mut report = diagn::Report::new();
+    match util::filename_navigate(&mut report, diagn::Span::new_dummy(), &cur, &rel)
+    {
+        Ok(p) => format!("{{\"ok\":{}}}", json::string(&p)),
+        Err(()) => format!("{{\"err\":{}}}", json::string(&first_error(&report))),
+    }
 }
